@@ -6,11 +6,12 @@ SPEC = {
                                     "C17_converges", "C17_todo_nil_spec", "C17_grouping", "C17_comment_line", "C17_gitlab_L1", "C17_github_L1",
                                     "C17_platform_L2", "C17_gitlab_idempotent", "C17_github_idempotent", "C17_platforms_converge",
                                     "C17_server_platforms_L1", "C17_foreign_untouched", "C17_server_platforms_converge",
+                                    "C17_bitbucket_reconcile", "C17_bitbucket_deviations_refuted",
                                     "C17_gitlab_prefix_L1_refuted", "C17_counting_skips_starves_refuted", "C17_nonvacuous"]},
-    "harness_args": lambda tier: ["C17", "--n", 240, "--diffs", 90, "--servers", 26] if tier == "quick"
-                                 else ["C17", "--n", 4000, "--diffs", 2000, "--servers", 500],
+    "harness_args": lambda tier: ["C17", "--n", 240, "--diffs", 90, "--servers", 26, "--bitbucket", 48] if tier == "quick"
+                                 else ["C17", "--n", 3000, "--diffs", 1200, "--servers", 300, "--bitbucket", 600],
     # used three times (three extra seeds) when an obligation broke without an oracle failure: keep it at quick-tier size
-    "search_args": lambda tier: ["C17", "--n", 300, "--diffs", 80, "--servers", 40],
+    "search_args": lambda tier: ["C17", "--n", 300, "--diffs", 80, "--servers", 40, "--bitbucket", 60],
     "level": "proof",
     "trusted_base": [
         "Coq 8.16.1 kernel + VM (vm_compute); no axioms (Print Assumptions: closed under the global context)",
@@ -47,7 +48,9 @@ MANIFEST = {
             "stateful in-memory Commenter (which signals unplaceable comments with whatever the real platform code returns) and compares pending comments, "
             "create/delete logs and stores per round with the model; parseDiffLines/diffLineFor/fixCommentLine/reportToGitLabDiscussion/IsEqual are compared on "
             "generated unified diffs; the real GitHub/GitLab reporters run against fake APIs and everything the server holds is compared per round with the "
-            "model (incl. GitLab's deduplicated 'too many comments' note). ONLY TESTED (oracle, not proved): the clauses on the real rounds, L1 on the real "
+            "model (incl. GitLab's deduplicated 'too many comments' note). BitBucket's separate reconciliation (limit/prune/add, anchor computation) is "
+            "modelled, proved idempotent/covering/duplicate-free under echo and without COMMIT-anchored comments, its two deviations from C17's shape are "
+            "proved as refutations, and the real functions are compared with the model over multi-round runs against a fake comments API. ONLY TESTED (oracle, not proved): the clauses on the real rounds, L1 on the real "
             "functions, GitHub's Summary/general comments (known finding: the general comment is repeated on every run).",
     "note": "Coq 8.16.1 kernel+VM, no axioms. Trusted: hand models (validated differentially each run, not verified from source); comment text not modelled "
             "in the in-memory rounds (ids of trimmed text); servers assumed to echo positions; API errors other than the skip signal outside the model; harness fakes.",
